@@ -183,13 +183,15 @@ void fam_prefixed(Tape& t, Stats& st, size_t forced = SIZE_MAX, int forcedType =
 }
 
 // ---------- (d) typed write / typed read inverse ----------
+// a non-trivially-copyable user type that serialises itself: Writer::Write(T&) must hand it the writer
+struct SelfWriting { std::vector<uint8_t> tail; uint32_t a = 0; uint16_t b = 0; void Write(Stream::Writer& w) { w.Write(a); w.Write(b); w.Write<uint8_t>(tail); } };
 void fam_inverse(Tape& t, Stats& st) {
 	Stream::DynamicMemoryWriter w;
 	struct Item { int kind; uint64_t v; std::vector<uint16_t> vec; std::string str; std::u16string s16; std::u32string s32; std::vector<uint32_t> v32; };
 	std::vector<Item> items;
 	unsigned n = 1 + t.below(20);
 	for (unsigned i = 0; i < n; ++i) {
-		Item it; it.kind = int(t.below(12)); it.v = t.u64();
+		Item it; it.kind = int(t.below(13)); it.v = t.u64();
 		switch (it.kind) {
 		case 0: w.Write(uint8_t(it.v)); break;
 		case 1: w.Write(uint16_t(it.v)); break;
@@ -202,6 +204,7 @@ void fam_inverse(Tape& t, Stats& st) {
 		case 9: { size_t k = t.below(20); for (size_t j = 0; j < k; ++j) it.s16.push_back(char16_t(t.u16())); w.Write(it.s16); break; }                 // unprefixed: the reader is told the length
 		case 10: { size_t k = t.below(20); for (size_t j = 0; j < k; ++j) it.v32.push_back(t.u32()); w.Write<int16_t>(it.v32); break; }
 		case 11: { size_t k = t.below(30); for (size_t j = 0; j < k; ++j) it.str.push_back(char(t.u8())); w.Write(it.str); break; }
+		case 12: { SelfWriting sw; sw.a = uint32_t(it.v); sw.b = uint16_t(it.v >> 40); size_t k = t.below(9); for (size_t j = 0; j < k; ++j) { it.str.push_back(char(t.u8())); sw.tail.push_back(uint8_t(it.str.back())); } w.Write(sw); break; }
 		default: { size_t k = t.below(30); for (size_t j = 0; j < k; ++j) it.str.push_back(char(t.u8())); w.Write<uint16_t>(it.str); break; }
 		}
 		items.push_back(it);
@@ -220,6 +223,7 @@ void fam_inverse(Tape& t, Stats& st) {
 		case 9: { std::u16string x(it.s16.size(), u'?'); rd.Read(x); V_CHECK(x == it.s16, "u16string inverse (" << it.s16.size() << " characters)"); break; }
 		case 10: { std::vector<uint32_t> x(2, 7); rd.Read<int16_t>(x); V_CHECK(x == it.v32, "prefixed u32 vector inverse"); break; }
 		case 11: { std::string x(it.str.size(), '?'); rd.Read(x); V_CHECK(x == it.str, "string inverse"); break; }
+		case 12: { uint32_t a; uint16_t b; std::vector<uint8_t> tl; rd.Read(a); rd.Read(b); rd.Read<uint8_t>(tl); V_CHECK(a == uint32_t(it.v) && b == uint16_t(it.v >> 40) && std::string(tl.begin(), tl.end()) == it.str, "self-writing object inverse"); break; }
 		default: { std::string x = "stale"; rd.Read<uint16_t>(x); V_CHECK(x == it.str, "prefixed string inverse"); break; }
 		}
 	}
